@@ -67,6 +67,8 @@ pub struct RunCtx {
     pub base_shift_ns: u64,
     /// insert extra handle_timeout / poll_transmit / poll calls that must be harmless (C20)
     pub spurious: bool,
+    /// real-time instant after which a world in progress is abandoned (campaign wall-clock cap)
+    pub deadline: Option<Instant>,
 }
 
 pub struct Family {
@@ -156,6 +158,11 @@ pub struct Found {
 }
 
 fn first_kind(o: &RunOut, spec: &PropSpec) -> Option<(String, String)> {
+    if o.hit_limit == Some("wall") {
+        // abandoned in the middle because the campaign's wall-clock budget ran out: whatever its
+        // end-of-world checks said is about a world that never ended
+        return None;
+    }
     if let Some(v) = o.violations.first() {
         return Some((v.kind.clone(), v.detail.clone()));
     }
@@ -299,7 +306,7 @@ pub fn run_check(spec: &PropSpec, tier: &str, verif_seed: u64, verif_dir: &str) 
         for _ in 0..threads {
             s.spawn(|| {
                 crate::alloc::reset_thread();
-                let ctx = RunCtx::default();
+                let ctx = RunCtx { deadline: Some(t0 + std::time::Duration::from_secs_f64(wall_cap + 20.0)), ..Default::default() };
                 let mut local = Agg::default();
                 loop {
                     if stop.load(Ordering::Relaxed) {
